@@ -42,22 +42,76 @@ impl Rng {
     }
 }
 
+/// One mutation in "free" mode (mutators not serialised against each other).
+#[derive(Clone, Copy)]
+struct OpLog {
+    inc: bool,
+    bytes: u64,
+    msgs: u64,
+    started_at: usize,
+    completed_at: usize,
+}
+
 /// The mutation wrapper + trace.
+///
+/// Serialised mode: every mutation runs under the trace mutex, so the trace is the exact
+/// sequence of counter states (strong "never spuriously" oracle). Free mode: mutators overlap
+/// freely (crossing `inc`/`dec` calls); only a logical clock is taken at the start and the end
+/// of each call, and the spurious-resume oracle falls back to a sound lower bound.
 struct Shadow {
     fc: FlowControl,
     /// (messages, bytes) after each completed mutation; index 0 = initial state.
     trace: Mutex<Vec<(u64, u64)>>,
     started: AtomicUsize,
     completed: AtomicUsize,
+    free: bool,
+    clock: AtomicUsize,
+    ops: Mutex<Vec<OpLog>>,
+    init: (u64, u64),
 }
 
 impl Shadow {
-    fn new(init_msgs: u64, init_bytes: u64) -> Shadow {
+    fn new(init_msgs: u64, init_bytes: u64, free: bool) -> Shadow {
         let fc = flow_control::create(MAX_BYTES, MAX_MSGS);
         fc.inc(init_bytes, init_msgs);
-        Shadow { fc, trace: Mutex::new(vec![(init_msgs, init_bytes)]), started: AtomicUsize::new(0), completed: AtomicUsize::new(0) }
+        Shadow {
+            fc,
+            trace: Mutex::new(vec![(init_msgs, init_bytes)]),
+            started: AtomicUsize::new(0),
+            completed: AtomicUsize::new(0),
+            free,
+            clock: AtomicUsize::new(0),
+            ops: Mutex::new(Vec::new()),
+            init: (init_msgs, init_bytes),
+        }
+    }
+    fn now(&self) -> usize {
+        self.clock.load(Ordering::SeqCst)
+    }
+    fn final_state(&self) -> (u64, u64) {
+        if !self.free {
+            return *self.trace.lock().unwrap().last().unwrap();
+        }
+        let (mut m, mut b) = (self.init.0 as i64, self.init.1 as i64);
+        for o in self.ops.lock().unwrap().iter() {
+            let sign = if o.inc { 1 } else { -1 };
+            m += sign * o.msgs as i64;
+            b += sign * o.bytes as i64;
+        }
+        (m as u64, b as u64)
     }
     fn apply(&self, inc: bool, bytes: u64, msgs: u64) {
+        if self.free {
+            let started_at = self.clock.fetch_add(1, Ordering::SeqCst) + 1;
+            if inc {
+                self.fc.inc(bytes, msgs);
+            } else {
+                self.fc.dec(bytes, msgs);
+            }
+            let completed_at = self.clock.fetch_add(1, Ordering::SeqCst) + 1;
+            self.ops.lock().unwrap().push(OpLog { inc, bytes, msgs, started_at, completed_at });
+            return;
+        }
         let mut t = self.trace.lock().unwrap();
         let (m, b) = *t.last().unwrap();
         self.started.fetch_add(1, Ordering::SeqCst);
@@ -109,7 +163,7 @@ fn drive_wait(sh: &Shadow, ws: &Arc<WaiterState>, spin_before: u64) -> WaitResul
     for _ in 0..spin_before {
         std::hint::spin_loop();
     }
-    let start_completed = sh.completed.load(Ordering::SeqCst);
+    let start_completed = if sh.free { sh.now() } else { sh.completed.load(Ordering::SeqCst) };
     let waker = Waker::from(Arc::clone(ws));
     let mut cx = Context::from_waker(&waker);
     let mut fut: Pin<Box<dyn Future<Output = ()> + '_>> = Box::pin(sh.fc.wait_for_available_space());
@@ -131,7 +185,7 @@ fn drive_wait(sh: &Shadow, ws: &Arc<WaiterState>, spin_before: u64) -> WaitResul
             }
         }
     }
-    let end_started = sh.started.load(Ordering::SeqCst);
+    let end_started = if sh.free { sh.now() } else { sh.started.load(Ordering::SeqCst) };
     ws.park.lock().unwrap().done = true;
     WaitResult { polls, parked_at_least_once: parked_once, start_completed, end_started }
 }
@@ -200,8 +254,26 @@ struct TrialOutcome {
 }
 
 /// One trial with freshly spawned threads (used under Miri and as the simple native path).
-fn run_trial_spawned(script: &Script, rng: &mut Rng, jitter: bool) -> TrialOutcome {
-    let sh = Arc::new(Shadow::new(script.init.0, script.init.1));
+/// Free mode: the lowest values the counters can have had inside the waiter's window are
+/// init + (increments that had completed before it started) - (decrements that had started
+/// before it returned). If even those are not below the limits the resume was spurious.
+fn could_have_observed_free(sh: &Shadow, r: &WaitResult) -> bool {
+    let (mut m, mut b) = (sh.init.0 as i64, sh.init.1 as i64);
+    for o in sh.ops.lock().unwrap().iter() {
+        if o.inc && o.completed_at <= r.start_completed {
+            m += o.msgs as i64;
+            b += o.bytes as i64;
+        }
+        if !o.inc && o.started_at <= r.end_started {
+            m -= o.msgs as i64;
+            b -= o.bytes as i64;
+        }
+    }
+    m < MAX_MSGS as i64 && b < MAX_BYTES as i64
+}
+
+fn run_trial_spawned(script: &Script, rng: &mut Rng, jitter: bool, free: bool) -> TrialOutcome {
+    let sh = Arc::new(Shadow::new(script.init.0, script.init.1, free));
     let states: Vec<Arc<WaiterState>> = (0..script.waiters).map(|_| Arc::new(WaiterState { park: Mutex::new(Park::default()), cv: Condvar::new(), wakes: AtomicU64::new(0) })).collect();
     let go = Arc::new(Barrier::new(script.waiters + script.muts.len()));
     let mut wh = Vec::new();
@@ -236,7 +308,7 @@ fn run_trial_spawned(script: &Script, rng: &mut Rng, jitter: bool) -> TrialOutco
 fn finish_trial(sh: &Arc<Shadow>, states: &[Arc<WaiterState>], wh: Vec<std::thread::JoinHandle<WaitResult>>) -> TrialOutcome {
     let mut out = TrialOutcome { violation: None, inconclusive: None, parked: 0, polls: vec![] };
     // All mutators are done. The final counters are below both limits by construction.
-    let fin = *sh.trace.lock().unwrap().last().unwrap();
+    let fin = sh.final_state();
     assert!(fin.0 < MAX_MSGS && fin.1 < MAX_BYTES, "script must end with capacity: {:?}", fin);
     // never missed: decided logically
     let t0 = std::time::Instant::now();
@@ -280,7 +352,8 @@ fn finish_trial(sh: &Arc<Shadow>, states: &[Arc<WaiterState>], wh: Vec<std::thre
         if r.parked_at_least_once {
             out.parked += 1;
         }
-        if out.violation.is_none() && !could_have_observed(&trace, &r) {
+        let observable = if sh.free { could_have_observed_free(sh, &r) } else { could_have_observed(&trace, &r) };
+        if out.violation.is_none() && !observable {
             out.violation = Some((
                 "C19:spurious-resume".into(),
                 format!("a waiter resumed although no position of the trace window [{}, {}] shows messages < {} followed by bytes < {}; trace {:?}", r.start_completed, r.end_started, MAX_MSGS, MAX_BYTES, trace),
@@ -303,7 +376,8 @@ fn main() {
             let mut rng = Rng(k.wrapping_mul(77));
             let mut script = make_script(&mut rng, k);
             script.waiters = script.waiters.min(2);
-            let o = run_trial_spawned(&script, &mut rng, false);
+            let free = k % 2 == 1;
+            let o = run_trial_spawned(&script, &mut rng, false, free);
             match (&o.violation, &o.inconclusive) {
                 (Some((sig, d)), _) => {
                     println!("FLOW VIOLATION {} {}", sig, d);
@@ -327,12 +401,13 @@ fn main() {
             for t in 0..trials {
                 let kind = rng.below(4);
                 let script = make_script(&mut rng, kind);
-                let o = run_trial_spawned(&script, &mut rng, true);
+                let free = rng.below(2) == 0;
+                let o = run_trial_spawned(&script, &mut rng, true, free);
                 if o.parked > 0 {
                     parked_trials += 1;
                     let mut pv = o.polls.clone();
                     pv.sort();
-                    keys.insert(format!("k{} w{} m{} polls{:?}", kind, script.waiters, script.muts.iter().map(|m| m.len().to_string()).collect::<Vec<_>>().join("/"), pv));
+                    keys.insert(format!("k{} f{} w{} m{} polls{:?}", kind, free, script.waiters, script.muts.iter().map(|m| m.len().to_string()).collect::<Vec<_>>().join("/"), pv));
                 }
                 if let Some(i) = o.inconclusive {
                     inconclusive += 1;
@@ -352,7 +427,7 @@ fn main() {
                 "episodes": trials, "nontrivial": parked_trials, "keys": keys.iter().map(|k| { let mut h: u64 = 0xcbf29ce484222325; for b in k.bytes() { h ^= b as u64; h = h.wrapping_mul(0x100000001b3); } h }).collect::<Vec<u64>>(),
                 "violations": violations, "inconclusive": if inconclusive > 0 { serde_json::json!({"flow-native: waiter neither finished nor parked within 20 s": inconclusive}) } else { serde_json::json!({}) },
                 "counters": {"trials_with_parked_waiter": parked_trials}, "minmax": {}, "samples": samples, "hooks": {}, "panics": [],
-                "rule": "native threads: per trial 1-3 waiter threads drive wait_for_available_space() with a hand-written executor while 1-2 mutator threads run a script of inc/dec (4 script kinds: single releasing dec, two mutators freeing one dimension each, capacity churn, random walk ending below both limits) with random spin jitter between the steps. Non-trivial: a waiter parked at least once before returning. Distinct: (script kind, waiters, script lengths, sorted poll-count vector).",
+                "rule": "native threads: per trial 1-3 waiter threads drive wait_for_available_space() with a hand-written executor while 1-2 mutator threads run a script of inc/dec (4 script kinds: single releasing dec, two mutators freeing one dimension each, capacity churn, random walk ending below both limits) with random spin jitter between the steps; in half of the trials the mutators are serialised by the trace wrapper (exact trace, strong spurious-resume oracle), in the other half they overlap freely (crossing inc/dec calls; logical-clock log, lower-bound spurious-resume oracle). Non-trivial: a waiter parked at least once before returning. Distinct: (script kind, waiters, script lengths, sorted poll-count vector).",
                 "exhaustive_plan": false, "truncated": false, "wall_s": t0.elapsed().as_secs_f64()
             });
             let s = serde_json::to_string(&j).unwrap();
